@@ -158,7 +158,7 @@ def c_expr(ctx, args):
             I = np.eye(2 ** n)
             a = got_d if isinstance(got_d, np.ndarray) else got_d * I
             b = want_d if isinstance(want_d, np.ndarray) else want_d * I
-            if not np.allclose(a, b, atol=1e-9):
+            if not np.allclose(a, b, atol=2e-9, rtol=0):
                 return {'kind': 'oracle', 'where': 'np:polynomial expression vs dense matrices', 'observed': got, 'expected': 'dense evaluation of the same expression'}
     return None
 
@@ -236,6 +236,36 @@ def rleaf(rng, n, kinds):
     return [4, cfrac(rng.choice(COEFS))]
 
 
+# magnitudes from 2^-44 to 1: exact in complex128 as long as sums stay within ~42 bits of each other (no products of small numbers are formed)
+SMALL = [2.0 ** (-k) for k in (12, 16, 20, 24, 28, 31, 33, 34, 36, 40, 44)]
+
+
+def rsmallpoly(rng, n, L):
+    pool = [gen.rstr(rng, n) for _ in range(2)] + [[0] * (2 * n)]
+    ts = []
+    for _ in range(L):
+        mag = rng.choice(SMALL) if rng.random() < 0.6 else abs(rng.choice([1, 2, 0.5, 0.25]))
+        c = mag * rng.choice([1, -1, 1j, -1j])
+        ts.append([cfrac(c), [rng.choice(pool) if rng.random() < 0.5 else gen.rstr(rng, n), rng.randint(0, 3)]])
+    return [2, n, ts]
+
+
+def rsmallexpr(rng, n):
+    """shapes whose exact value stays exact in floating point: widely spread magnitudes meet the tolerance of reduce()"""
+    k = rng.randint(0, 4)
+    P = [0, rsmallpoly(rng, n, rng.randint(1, 6))]
+    if k == 0:
+        return [7, P]                                                         # reduce()
+    if k == 1:
+        return [rng.choice([4, 5]), P, [0, rsmallpoly(rng, n, rng.randint(1, 4))]]       # sum / difference of two polynomials
+    if k == 2:
+        return [4, P, [0, [4, cfrac(rng.choice(SMALL) * rng.choice([1, -1, 1j]))]]]      # polynomial + small number
+    if k == 3:
+        a = gen.rpauli(rng, n)
+        eps = rng.choice(SMALL[:8])
+        return [5, [2, cfrac(1 + eps), [0, [0, a]]], [0, [0, a]]]             # (1 + eps) P - P : a near-cancellation
+    return [4, [0, [1, cfrac(rng.choice(SMALL)), gen.rpauli(rng, n)]], P]     # small monomial + polynomial
+
 def rexpr(rng, n, depth, kinds):
     if depth == 0 or rng.random() < 0.25:
         return [0, rleaf(rng, n, kinds)]
@@ -270,6 +300,12 @@ def run(ctx):
         e = rexpr(rng, n, rng.randint(1, 4), kinds_all if rng.random() < 0.5 else ['pauli', 'mono', 'poly', 'num'])
         do(ctx, 'expr', [n, e], nontrivial=('e', str(e)) if (has(e, (4, 5, 6))) else None, sample=(it < 2))
         ctx.res.count('top_op_%d' % e[0])
+    # coefficients spread over many orders of magnitude around the tolerance of reduce() (1e-10): only terms below it may be dropped
+    for it in range(int(150 * B)):
+        n = rng.randint(1, 3)
+        e = rsmallexpr(rng, n)
+        do(ctx, 'expr', [n, e], nontrivial=('sm', str(e)))
+        ctx.res.count('small_coefficient_expr')
     for it in range(int(200 * B)):
         n = rng.randint(1, 3)
         o = rleaf(rng, n, ['pauli', 'mono', 'poly', 'poly'])
